@@ -219,34 +219,41 @@ def languages(draw, max_assets=5, max_expr_depth=2, deep_chains=False, arith_ttc
     # ---- associations ------------------------------------------------------------------------
     n_assoc = draw(st.integers(0, min(6, 2 * n_assets)))
     used_fields = {}   # field name -> set of roots of owner types
+    field_targets = {}  # field name -> set of target types
     used_sigs = set()
     fcount = 0
     for k in range(n_assoc):
         left = names[draw(st.integers(0, n_assets - 1))]
         right = names[draw(st.integers(0, n_assets - 1))]
         if dup_assoc_names and k > 0 and draw(st.integers(0, 9)) < 3:
-            aname = spec['associations'][draw(st.integers(0, k - 1))]['name']
+            prev = spec['associations'][draw(st.integers(0, k - 1))]
+            aname = prev['name']
+            if prev['leftAsset'] != prev['rightAsset'] and draw(st.integers(0, 2)) == 0:
+                # the same name between the same two types in the opposite orientation
+                left, right = prev['rightAsset'], prev['leftAsset']
         else:
             aname = ASSOC_NAMES[k % len(ASSOC_NAMES)] + (str(k) if k >= len(ASSOC_NAMES) else '')
-        if (aname, left, right) in used_sigs or (aname, right, left) in used_sigs:
+        if (aname, left, right) in used_sigs:
             aname = f'{aname}{k}x'
         used_sigs.add((aname, left, right))
 
-        def fresh_field(owner, avoid):
+        def fresh_field(owner, avoid, target):
             # owner = type from which the field is visible; reuse a name only across trees
             nonlocal fcount
             root = L.root(owner)
             reuse = sorted(f for f, roots in used_fields.items() if root not in roots and f != avoid)
+            same_target = [f for f in reuse if target in field_targets.get(f, ())]
             if reuse and draw(st.integers(0, 9)) < 3:
-                f = draw(st.sampled_from(reuse))
+                f = draw(st.sampled_from(same_target if same_target and draw(st.booleans()) else reuse))
             else:
                 f = FIELD_STEMS[fcount % len(FIELD_STEMS)] + (str(fcount // len(FIELD_STEMS)) if fcount >= len(FIELD_STEMS) else '')
                 fcount += 1
             used_fields.setdefault(f, set()).add(root)
+            field_targets.setdefault(f, set()).add(target)
             return f
         # leftField holds left-typed assets and is visible from the right type (and vice versa)
-        lf = fresh_field(right, None)
-        rf = fresh_field(left, lf)
+        lf = fresh_field(right, None, left)
+        rf = fresh_field(left, lf, right)
         lm = draw(st.sampled_from(MULTS))
         rm = draw(st.sampled_from(MULTS))
         spec['associations'].append({
@@ -288,18 +295,22 @@ def languages(draw, max_assets=5, max_expr_depth=2, deep_chains=False, arith_ttc
         L = g.L
 
     # ---- variables ------------------------------------------------------------------------------
-    var_count = 0
+    used_vars = {}   # root of the inheritance tree -> variable names used in that tree
     for a in assets:
         if not L.fields(a['name']):
             continue
         for _ in range(draw(st.integers(0, 2)) if draw(st.integers(0, 9)) < 5 else 0):
-            if var_count >= len(VAR_NAMES):
+            # no shadowing along a chain: names are unique per inheritance tree, but the same name is
+            # deliberately reused in unrelated trees (with a different body)
+            taken = used_vars.setdefault(L.root(a['name']), set())
+            free = [v for v in VAR_NAMES if v not in taken]
+            if not free:
                 break
             e = g.expr(a['name'], max(1, max_expr_depth - 1))
             if e is None:
                 break
-            vn = VAR_NAMES[var_count]
-            var_count += 1
+            vn = free[0]
+            taken.add(vn)
             a['variables'].append({'name': vn, 'stepExpression': e[0]})
             g.vartype[(a['name'], vn)] = (e[1], e[2])
             g.refresh()
